@@ -106,7 +106,7 @@ func checkCase(c *Case, count bool) error {
 		star := q.Method == http.MethodOptions && q.Path == "*"
 		for _, m := range methods {
 			pats := r.Patterns(m)
-			if strings.Contains(q.Path, "*") && hasBoth(pats) && !star {
+			if rt.ExcludedE(q.Path, pats) && !star {
 				skip = "open finding E: request contains '*' and a method has both a parameter and a catch-all"
 				break
 			}
